@@ -57,7 +57,12 @@ class CancelLike(BaseException):
     """What event loops throw to cancel: a BaseException that is not an Exception."""
 
 
-OUTCOME = {"normal": None, "ValueError": ValueError, "BaseException": BaseException, "StopIteration": StopIteration,
+class GeneratorExitSub(GeneratorExit):
+    """Only GeneratorExit itself is documented to close the generator; a subclass is thrown in like any exception."""
+
+
+OUTCOME = {"normal": None, "ValueError": ValueError, "Exception": Exception, "GeneratorExitSub": GeneratorExitSub,
+           "BaseException": BaseException, "StopIteration": StopIteration,
            "StopAsyncIteration": StopAsyncIteration, "RuntimeError": RuntimeError, "GeneratorExit": GeneratorExit,
            "KeyboardInterrupt": KeyboardInterrupt, "New": New,
            # subclasses of the exception types the exit protocol treats specially, and pre-chained exceptions
